@@ -85,7 +85,7 @@ Ctx(S, c, cmd) ==
         p == cmd.p
         live == c \in DOMAIN S.conns
         authed == live /\ S.conns[c].authed
-        perr == v \notin Faults /\ Validate(cmd) # <<>>
+        perr == v \notin Faults /\ v # "RAW" /\ Validate(cmd) # <<>>
         ok == authed /\ ~perr
         me == IF authed THEN S.conns[c].nick[1] ELSE ""
         chTargets == IF ok /\ v \in {"PRIVMSG", "NOTICE"}
@@ -142,7 +142,7 @@ Owns(P, x, g) ==
                              \/ (IsOut(g) /\ g.b \in {"353", "366"})))
                       \/ (x.authed /\ ~x.perr /\ ~x.hidden /\ v \in {"NAMES", "WHO", "WHOIS"} /\ IsOut(g) /\
                             g.b \in {"353", "366", "352", "315", "319"} /\ g.d \in {"-s", "-o"})
-      [] P = "C05" -> g.t = "run" /\ g.a \in {"dead", "panic", "issue"}
+      [] P = "C05" -> g.t = "run" /\ g.a \in {"dead", "panic", "issue", "closed", "otherclosed", "unregistered"}
       [] P = "C06" -> ((x.authed /\ v \in Endings) \/ (x.authed /\ ~x.perr /\ v \in {"KILL", "DIE", "SQUIT"})) /\
                       (IsSt(g) \/ (IsOut(g) /\ g.b \in {"EOF", "ERROR"}))
       [] P = "C07" -> x.authed /\ ~x.perr /\ v = "JOIN" /\
